@@ -10,9 +10,12 @@ Writes /verif/seeded/<ID>/{patch.diff, demo.py, meta.json}.  The scratch copy is
 """
 import json, os, re, shutil, subprocess, sys
 pid = sys.argv[1]
+suffix = ""
+if ":" in pid:
+    pid, suffix = pid.split(":")
 checks = sys.argv[2:] or [pid]
-src = f"/tmp/seed/{pid}_out"
-root = f"/var/tmp/whseed/{pid}"
+src = os.environ.get("SEED_SRC", f"/tmp/seed/{pid}_out")
+root = f"/var/tmp/whseed/{pid}{suffix}"
 shutil.rmtree(root, ignore_errors=True)
 os.makedirs(root)
 repo = f"{root}/repo"
@@ -43,11 +46,11 @@ print(f"[{pid}] confirmed={ok}")
 shutil.rmtree(root, ignore_errors=True)
 res = {}
 for c in checks:
-    m = subprocess.run(["/verif/tools/mut.py", f"seed_{pid}", os.path.join(src, "patch.diff"), c], capture_output=True, text=True)
+    m = subprocess.run(["/verif/tools/mut.py", f"seed_{pid}{suffix}", os.path.join(src, "patch.diff"), c], capture_output=True, text=True)
     line = [l for l in m.stdout.splitlines() if l.startswith("MUT")]
     print("   ", line[0][:300] if line else m.stdout[-300:])
     res[c] = (line[0].split(":")[1].split()[0] if line else "ERROR") + " " + " ".join(re.findall(r"clause=(\S+)", line[0] if line else ""))[:200]
-out = f"/verif/seeded/{pid}"
+out = f"/verif/seeded/{pid}{suffix}"
 os.makedirs(out, exist_ok=True)
 shutil.copy(os.path.join(src, "patch.diff"), out)
 shutil.copy(demo, out)
